@@ -48,6 +48,28 @@ def main():
             fails.append(("route:" + ("hup-not-applied" if phase == "after-HUP" and impl == m else "misrouted"), obj, len(r)))
         if impl != m:
             mism.append(obj)
+    # ---- the hash table itself (Base/Constmap.v) against constmap.c: structure and lookups, with and without colons,
+    #      on the very buffers control_readfile hands to constmap_init (lines NUL-terminated)
+    tdrv = vlib.build_driver("TBL")
+    objs_, libs_ = rb.link_deps("qmail-send")
+    hcm = rb.compile_harness(os.path.join(vlib.VERIF, "harness", "h_cmap.c"), os.path.join(vlib.scratch(), "h_cmap10"), objs=[o for o in objs_ if o != "constmap.o"], libs=libs_)
+    cl = []
+    for _ in range(80 if ck.thorough else 25):
+        c = gen_ctl(rng)
+        for fc, content in ((1, c["vdoms"]), (0, c["locals"]), (0, c["pct"])):
+            lines_ = [l.rstrip(b" \t") for l in content.split(b"\n")]
+            lines_ = [l for l in lines_ if l and not l.startswith(b"#")]
+            if rng.random() < 0.2: lines_ += [b"k%d.bulk:%d" % (k_, k_) for k_ in range(rng.choice([60, 64, 70, 140]))]
+            buf = b"".join(l + b"\0" for l in lines_)
+            cl.append("dump %d %s" % (fc, vlib.hx(buf)))
+            keys = [l.split(b":")[0] if fc else l for l in lines_[:8]] + [b"", b"nokey", b"a.dom"]
+            for k_ in keys:
+                cl.append("cm %d %s %s" % (fc, vlib.hx(buf), vlib.hx(flipcase(rng, k_))))
+    ca, _, _ = vlib.run_lines(hcm, cl)
+    cb, _, _ = vlib.run_lines(tdrv, cl)
+    for l_, x_, y_ in zip(cl, ca, cb):
+        ck.evaluated(); ck.count("constmap_" + l_.split()[0] + l_.split()[1])
+        if x_ != y_: mism.append(dict(fn="constmap", query=l_[:300], observed=x_[:300], model=y_[:300]))
     # senderadd (VERP)
     sa = []
     for _ in range(3000 if ck.thorough else 600):
